@@ -394,7 +394,8 @@ ZERO_ITEMS = [
     lambda rng: [("FBits", REST, A, rng.chance(1, 2), [])],
     lambda rng: [("FBuf", 1, ("LDataLen", rng.range(1, 4), rng.range(1, 2), 0), A)],
     lambda rng: [("FBits", REST, A, False, [("BitF", None, 0, None)]), ("FBuf", 2, ("LDataLen", 3, 2, 0), A)],
-    lambda rng: [("FUint", 1, ("LFix", 1), A, False, False, 0, 1), ("FBuf", 2, ("LTab", 1, [(0, 0), (1, 1)]), ("PTab", 1, [(0, True), (1, True)]))],
+    # all-optional item: presence keyed on a name the (empty) item dict never holds -> KeyError, wrapped
+    lambda rng: [("FBuf", 2, ("LFix", 1), ("PTab", 140, [(0, True), (1, False)])), ("FSpare", ("LFix", 1), ("PTab", 140, [(0, False), (1, True)]), 0)],
 ]
 
 MUTS = ("dup-name", "flex-middle", "bad-key", "mult0", "fixed-range", "spare-rest", "env-loose",
@@ -802,6 +803,7 @@ def delete_name(rng, env, site):
 class Def:
     def __init__(self, fields, wf, tag):
         self.fields, self.wf, self.tag = fields, wf, tag
+        self.wfb = None     # the model's executable well-formedness predicate (w_c16_wf), filled in by run()
         self.info = Info(fields)
         self.static = static_size(fields)
         # octets of the leading run of always-present fixed-length fields of a flat definition
@@ -849,7 +851,7 @@ def jsonable(o):
 
 
 def show(c):
-    d = dict(op=c["op"], fields=jsonable(c["D"].fields), wellformed=c["D"].wf, def_tag=c["D"].tag, mutation=c["mut"])
+    d = dict(op=c["op"], fields=jsonable(c["D"].fields), wellformed=c["D"].wf, wfb=c["D"].wfb, def_tag=c["D"].tag, mutation=c["mut"])
     if c["op"] == "enc":
         d["env"] = jsonable(c["pairs"])
     else:
@@ -969,6 +971,9 @@ def oracle(ctx, c, deep):
     if (op == "enc" and st == 1) or (op == "dec" and st == 2):
         fail("c16-errors", "encode raised DecodeError / decode raised EncodeError")
     if not D.wf:
+        # the model's wfb is weaker than the generator's notion: the re-encoding law is checked wherever wfb holds
+        if D.wfb == 1 and op == "dec" and st == 0 and deep:
+            dec_enc_law(ctx, c, fail)
         return
     if st == 3:
         fail("c16-errors", "well-formed definition: sequence item consumed no octet (decoder would not terminate)")
@@ -1013,24 +1018,40 @@ def oracle(ctx, c, deep):
         if o != [1, 0]:
             fail("c16-errors", "flipped bit of a fixed-value bit-field must give DecodeError", expected=[1, 0])
     if st == 0 and deep:
-        used = o[2]
-        v, _ = cb.ints_to_val(o, 3)
-        re = cb.run_encode(D.fields, v[1])
+        dec_enc_law(ctx, c, fail)
+
+
+def dec_enc_law(ctx, c, fail):
+    """decode succeeded with (v, n): v re-encodes to n octets that decode to (v, n) again"""
+    D, o, data, chk = c["D"], c["impl"], c["data"], c["chk"]
+    used = o[2]
+    v, _ = cb.ints_to_val(o, 3)
+    re = cb.run_encode(D.fields, v[1])
+    ctx.evaluations += 1
+    ctx.count("dec-enc-checked")
+    if re[0] != 0:
+        fail("c16-dec-enc", "decoded value does not re-encode: %r" % (re[:8],))
+        return
+    b2 = bytes(re[3:])
+    if len(b2) != used:
+        fail("c16-dec-enc", "re-encoding has %d octets, decoder used %d" % (len(b2), used))
+        return
+    rd = cb.run_decode(chk, D.fields, b2 + data[used:])
+    ctx.evaluations += 1
+    if rd != o:
+        fail("c16-dec-enc", "decode(encode(decode(data))) differs from decode(data)", expected=rd[:64])
+    if not D.info.spare and b2 != data[:used]:
+        fail("c16-dec-enc", "no spare octets/bits in the definition, yet the re-encoding differs from the consumed octets", expected=b2.hex())
+    if used < len(data):
+        # informative only: the re-encoding decoded WITHOUT the unconsumed tail (differs when a length rule looks at len(data))
+        rd2 = cb.run_decode(chk, D.fields, b2)
         ctx.evaluations += 1
-        if re[0] != 0:
-            fail("c16-dec-enc", "decoded value does not re-encode: %r" % (re[:8],))
-            return
-        b2 = bytes(re[3:])
-        if len(b2) != used:
-            fail("c16-dec-enc", "re-encoding has %d octets, decoder used %d" % (len(b2), used))
-            return
-        rd = cb.run_decode(chk, D.fields, b2 + data[used:])
-        ctx.evaluations += 1
-        if rd != o:
-            fail("c16-dec-enc", "decode(encode(decode(data))) differs from decode(data)", expected=rd[:64])
-        if not D.info.spare and b2 != data[:used]:
-            fail("c16-dec-enc", "no spare octets/bits in the definition, yet the re-encoding differs from the consumed octets", expected=b2.hex())
-        ctx.count("dec-enc-checked")
+        if rd2 != o:
+            ctx.count("dec-enc-without-tail-differs")
+            if "dec_enc_without_tail_witness" not in ctx.extra:
+                w = show(c)
+                w.update(decode_of_data=o[:64], reencoding=b2.hex(), decode_of_reencoding_alone=rd2[:64], wfb=D.wfb)
+                ctx.extra["dec_enc_without_tail_witness"] = w
 
 
 # ------------------------------------------------------------------ run
@@ -1051,6 +1072,7 @@ def run(ctx):
     done = 0
     n_cases = 0
     sampled = set()
+    n_intended = n_intended_wfb = 0
     while done < n_defs:
         if time.time() - t0 > budget:
             ctx.note("time budget reached after %d of %d definitions" % (done, n_defs))
@@ -1073,6 +1095,21 @@ def run(ctx):
             ctx.count("def-depth:%d" % D.info.depth)
             cases += cases_for_def(rng, D, nvals, rich)
             done += 1
+        defs = []
+        for c in cases:
+            if not defs or defs[-1] is not c["D"]:
+                defs.append(c["D"])
+        try:
+            wres = ctx.model("Codec", [cb.wf_line(D.fields) for D in defs])
+        except common.ModelUnavailable:
+            return
+        for D, r in zip(defs, wres):
+            D.wfb = r[0] if (r and r[0] in (0, 1)) else None
+            ctx.count("wf:%s" % D.wfb)
+            ctx.count("wf:%s:%s" % ("intended-wellformed" if D.wf else "tag-" + D.tag, D.wfb))
+            n_intended += 1 if D.wf else 0
+            n_intended_wfb += 1 if (D.wf and D.wfb == 1) else 0
+
         def impl(c):
             ctx.in_flight = c
             return impl_of(c)
@@ -1093,6 +1130,9 @@ def run(ctx):
                 ctx.sample(s, limit=8)
         n_cases += len(cases)
     ctx.extra["definitions"] = done
+    ctx.extra["intended_wellformed_with_wfb"] = "%d of %d" % (n_intended_wfb, n_intended)
+    if n_intended and n_intended_wfb * 10 < n_intended * 6:
+        ctx.note("generator: only %d of %d intended-well-formed definitions satisfy the model's wfb" % (n_intended_wfb, n_intended))
     ctx.extra["python_part_seconds"] = round(time.time() - t0, 1)
     ctx.extra["rule"] = (
         "definitions drawn in the AST of Model/Codec.v: nesting depth <= 3, 1..6 fields per level, Uint/Int widths 1..8 both byte orders with "
